@@ -468,6 +468,24 @@ class TranslatorC(Translator):
                 raise NotImplementedError('Unknown op: %r' % expr.op)
 
         elif len(expr.args) >= 3 and is_associative(expr):  # ?????
+            if expr.size > self.NATIVE_INT_MAX_SIZE:
+                op_to_bn_func = {
+                    "+": "add",
+                    "*": "mul",
+                    "|": "or",
+                    "^": "xor",
+                    "&": "and",
+                }
+                args = list(expr.args)
+                out = self.from_expr(args.pop())
+                while args:
+                    out = 'bignum_mask(bignum_%s(%s, %s), %d)' % (
+                        op_to_bn_func[expr.op],
+                        out,
+                        self.from_expr(args.pop()),
+                        expr.size
+                    )
+                return out
             oper = ['(%s&%s)' % (
                 self.from_expr(arg),
                 self._size2mask(arg.size),
